@@ -1,0 +1,20 @@
+//go:build verif
+
+package discovery
+
+// VerifShutdownNoLeave stops memberlist without broadcasting a leave message: for the other
+// members this node disappears abruptly and has to be detected by their failure detector. A
+// later Shutdown() is a no-op.
+func (d *Discovery) VerifShutdownNoLeave() error {
+	select {
+	case <-d.ctx.Done():
+		return nil
+	default:
+	}
+	d.cancel()
+	d.wg.Wait()
+	if d.memberlist != nil {
+		return d.memberlist.Shutdown()
+	}
+	return nil
+}
